@@ -496,11 +496,12 @@ class SSClient(Client):
                 if sn in VEC_ADD:
                     self.report(n, ('S', obj) in s and ('room', obj) in s, 'adds to the inline vector without knowing that the set is inline and not full')
                 elif sn in VEC_REMOVE:
-                    self.report(n, ('S', obj) in s, 'removes from the inline vector without knowing that the set is inline')
+                    # emptying a container as a whole is right in either state (the unused one is empty anyway)
+                    self.report(n, ('S', obj) in s or sn == 'clear', 'removes from the inline vector without knowing that the set is inline')
                     return [('n', frozenset(x for x in s if x not in (('full', obj), ('room', obj))))]
             else:
                 if sn in SET_WRITE:
-                    self.report(n, ('L', obj) in s, 'writes the large-state set without knowing that the set is large')
+                    self.report(n, ('L', obj) in s or sn == 'clear', 'writes the large-state set without knowing that the set is large')
                     if sn in ('erase', 'clear', 'extract'):
                         return [('n', frozenset(x for x in s if x != ('L', obj)))]
         return [('n', s)]
@@ -1050,4 +1051,97 @@ def node_move(progs):
                                    'is left holding a moved-from value' % what, where=g['pname'], unit=prog.uname))
             if starts:
                 rr.instance('%s|chain' % f['key'], {'insert_node': f['pname'][:140], 'functions_followed': len(seen)})
+    return rr
+
+
+# ------------------------------------------------------------------------------ SS-PAIR
+class PairClient(Client):
+    """State: which of this set's two containers have been replaced / emptied as a whole on this path."""
+
+    def __init__(self, linit):
+        self.linit = linit
+
+    def is_event(self, n):
+        return n.get('k') == 'call'
+
+    def event(self, n, s):
+        m = member_of(n, self.linit)
+        if m and m[0] == 'this' and (n.get('op') == '=' or A.cshort(n) in ('swap', 'clear', 'operator=')):
+            # whole-container assignment, exchange with the counterpart, or emptying
+            return [('n', s | {m[1]})]
+        if A.callee(n) in ('std::swap', 'amc::swap') and len(n.get('args', [])) == 2:
+            a = A.strip(n['args'][0])
+            if a.get('k') == 'mem' and a.get('name') in ('_vec', '_set') and A.root(a.get('base'), self.linit)[0] == 'this':
+                return [('n', s | {a['name']})]
+        return [('n', s)]
+
+
+def ss_pair(progs):
+    rr = RuleResult('SS-PAIR', 'a SmallSet member that replaces one of its two containers as a whole (assignment, swap) also replaces or empties the other '
+                               'one on the same path: no element of the previous state survives hidden in the unused container')
+    for prog in progs:
+        for f in prog.amc_functions():
+            if not in_class(f, SS) or f.get('body') is None or f.get('kind') in ('ctor', 'dtor'):
+                continue
+            body = f['body']
+            linit = A.local_inits(body)
+            whole = [c for c in A.calls(body) if (member_of(c, linit) or (None,))[0] == 'this' and (c.get('op') == '=' or A.cshort(c) in ('swap', 'operator='))]
+            if not whole:
+                continue
+            o = Engine(PairClient(linit)).run(body, frozenset(), f.get('inits'))
+            exits = list(o.normal) + [st for st, _ in o.returns]
+            bad = [st for st in exits if len(st & {'_vec', '_set'}) == 1]
+            rr.instance('%s|%s' % (f['key'], prog.uname), {'function': f['pname'][:150], 'whole_container_writes': len(whole), 'exit_states': len(exits),
+                                                           'verdict': 'both containers handled on every path' if not bad else 'FAILS'})
+            if bad:
+                only = sorted(bad[0] & {'_vec', '_set'})[0]
+                other = '_set' if only == '_vec' else '_vec'
+                rr.add(Finding('SS-PAIR', '%s|%s' % (f['key'], other), prog.site(f, whole[0]),
+                               'on some path %s is replaced as a whole while %s is neither replaced nor emptied: elements of the previous state stay hidden in '
+                               '%s and come back when the set changes state' % (only, other, other), where=f['pname'], unit=prog.uname))
+    return rr
+
+
+# ------------------------------------------------------------------------------ NODE-POS
+class NodePosClient(Client):
+    def __init__(self, cls):
+        self.cls = cls
+
+    def is_event(self, n):
+        return n.get('k') == 'call' or (n.get('k') == 'bin' and n.get('op') == '=')
+
+    @staticmethod
+    def _is_position(x):
+        x = A.strip(x)
+        return isinstance(x, dict) and x.get('k') == 'mem' and x.get('name') == 'position'
+
+    def event(self, n, s):
+        if n.get('k') == 'bin':
+            return [('n', s | {'pos'} if self._is_position(n.get('lhs')) else s)]
+        if n.get('op') == '=' and n.get('obj') is not None:
+            o = A.strip(n['obj'])
+            if self._is_position(o) or (o.get('k') == 'call' and A.callee(o) == 'std::tie' and any(self._is_position(a) for a in o.get('args', []))):
+                return [('n', s | {'pos'})]
+        if n.get('amc') and A.callee(n).startswith(self.cls + '::') and A.cshort(n) in ('insert', 'insert_val', 'emplace', 'emplace_hint', 'insert_hint'):
+            return [('n', (s - {'pos'}) | {'ins'})]
+        return [('n', s)]
+
+
+def node_pos(progs):
+    rr = RuleResult('NODE-POS', 'insert(node) reports the position returned by the insertion it performed on every path on which it performed one - also '
+                                'when the insertion was refused (the position then designates the element that prevented it)')
+    for prog in progs:
+        for f in prog.amc_functions():
+            cls = FS if in_class(f, FS) else SS if in_class(f, SS) else None
+            if cls is None or f.get('body') is None or short(f['name']) != 'insert' or 'nsert' not in (f.get('ret') or '') or \
+                    not ('eturn' in (f.get('ret') or '') or 'IRT' in (f.get('ret') or '')):
+                continue
+            o = Engine(NodePosClient(cls)).run(f['body'], frozenset(), f.get('inits'))
+            exits = list(o.normal) + [st for st, _ in o.returns]
+            bad = [st for st in exits if 'ins' in st and 'pos' not in st]
+            rr.instance('%s|%s' % (f['key'], prog.uname), {'function': f['pname'][:150], 'exit_states': len(exits), 'verdict': 'position always reported' if not bad else 'FAILS'})
+            if bad:
+                rr.add(Finding('NODE-POS', '%s' % f['key'], f['loc'],
+                               'on some path insert(node) performs the insertion but does not store the returned position into the result: a refused node '
+                               'reports end() although an equivalent element exists', where=f['pname'], unit=prog.uname))
     return rr
